@@ -12,9 +12,9 @@ import c01
 
 TRUSTED = c01.TRUSTED[:3] + [
     "Coq: the energy clause (C19_energy_of_every_mapping, C19_space_unchanged, C19_energy_scale_partial) and the throughput clause (C19_latency_of_every_mapping, C19_throughput_scale). The n_instances clause is checked on the real mapper only",
-    "scale factors include 2^-20 ... 2^40 and 1e20 so that values cross the float32 range and the 1e30 / 1e308 sentinels used inside the mapper",
+    "scale factors include 1e-18, 2^-20 ... 2^40 and 1e20 so that values cross the float32 range and the 1e30 / 1e308 sentinels used inside the mapper",
 ]
-KS = [Fraction(1, 2 ** 20), Fraction(1, 8), Fraction(3), Fraction(15, 2), Fraction(2 ** 10), Fraction(2 ** 40), Fraction(10 ** 20)]
+KS = [Fraction(1, 10 ** 18), Fraction(1, 2 ** 20), Fraction(1, 8), Fraction(3), Fraction(15, 2), Fraction(2 ** 10), Fraction(2 ** 40), Fraction(10 ** 20)]
 
 
 def scaled(spec, k, what):
@@ -56,7 +56,7 @@ def run(ck):
             ck.failing_input({"spec": spec, "errors": [base["ENERGY"]["error"], base["LATENCY"]["error"]]}, what="the mapper raised on the unscaled spec although valid mappings exist")
             continue
         e0, l0 = R.best(base["ENERGY"]["rows"], "Total<SEP>energy"), R.best(base["LATENCY"]["rows"], "Total<SEP>latency")
-        for k in (KS if not ck.quick() else rng.sample(KS, 3)):
+        for k in (KS if not ck.quick() else [KS[0]] + rng.sample(KS[1:], 2)):
             for what, metric, col, expect in (("energy", "ENERGY", "Total<SEP>energy", e0 * float(k)), ("throughput", "LATENCY", "Total<SEP>latency", l0 / float(k))):
                 if what == "energy" and e0 == 0:
                     continue
@@ -98,7 +98,7 @@ def run(ck):
                 ck.failing_input({"spec": spec, "n_instances_workload": n_w, "n_instances_einsum": n_e, "base_energy": e0, "energy": got_e, "expected": e0 * n_w * n_e},
                                  what=f"optimal energy with n_instances {n_w} x {n_e} is {got_e}, expected {e0 * n_w * n_e}")
     return ck.finish(
-        rule="random single-Einsum specs; every per-action energy and leak x k, every throughput x k, for k in {2^-20, 1/8, 3, 7.5, 2^10, 2^40, 1e20}; workload / Einsum n_instances in {3x1, 1x5, 2x3}; "
+        rule="random single-Einsum specs; every per-action energy and leak x k, every throughput x k, for k in {1e-18, 2^-20, 1/8, 3, 7.5, 2^10, 2^40, 1e20}; workload / Einsum n_instances in {3x1, 1x5, 2x3}; "
              "oracle: optimal energy x k, optimal latency / k, energy x n_instances, no change of feasibility; non-trivial = every pair",
         trusted=TRUSTED,
         extra={"input_distribution": dist,
